@@ -12,9 +12,12 @@ LEVEL = "exploration"
 RULE = ("cases = seeded small APIs varying namespace depth (0..3), version form, number/kind/name of target files, dependency-only "
         "files, and option strings (transports, name/namespace overrides, metadata, snippets); the response's file names and "
         "feature bits are judged by a layout reference written from the statement; each case is generated a second time with "
-        "unknown/repeated option noise appended and the two responses must be byte-identical; distinct = distinct "
+        "unknown/repeated option noise appended and the two responses must be byte-identical; in a share of the cases the name "
+        "overrides are additionally given twice with different values and the response must equal that of the last values alone; distinct = distinct "
         "(namespace depth, version form, file-name set, file kinds, option set) signatures that held")
-ASSUMPTIONS = ["identity pandoc stand-in", "proto packages are lower-case (protobuf style guide)"]
+ASSUMPTIONS = ["identity pandoc stand-in", "proto packages are lower-case (protobuf style guide)",
+               "when a single-valued option (python-gapic-name, warehouse-package-name) is given more than once the last occurrence is in "
+               "effect, as in Options.build and as build rules that append overriding options rely on"]
 CASE_TIMEOUT = 200
 PARALLEL = 14
 
@@ -33,7 +36,7 @@ NOISE = [
 
 def floors(tier):
     k = 1 if tier == "quick" else 10
-    return {"responses_judged": 80 * k, "metamorphic_pairs": 80 * k, "file_names_judged": 3000 * k}
+    return {"responses_judged": 80 * k, "metamorphic_pairs": 80 * k, "file_names_judged": 3000 * k, "repeated_key_pairs": 25 * k}
 
 
 def plan(seed, tier):
@@ -218,6 +221,32 @@ def run_case(case):
         b = {f.name: f.content for f in g2.response.file}
         diff = [n for n in sorted(set(a) | set(b)) if a.get(n) != b.get(n)][:5]
         viol.append({"clause": "unknown-option-changes-output", "detail": {"options": req2.parameter, "files": diff}, "mech": {}})
+    # metamorphic: a single-valued key given twice with different values — the last occurrence is the one in effect
+    if rng.random() < 0.4 or any(o.startswith("python-gapic-name=") for o in api.options):
+        shadow = ["python-gapic-name=shadowed_name", "warehouse-package-name=shadowed-pkg"]
+        if any(o.startswith("python-gapic-name=") for o in api.options) and any(o.startswith("warehouse-package-name=") for o in api.options):
+            ref_raw, ref_opts = g.raw, list(api.options)
+        else:
+            ref_opts = list(api.options)
+            if not any(o.startswith("python-gapic-name=") for o in ref_opts):
+                ref_opts.append("python-gapic-name=final_name")
+            if not any(o.startswith("warehouse-package-name=") for o in ref_opts):
+                ref_opts.append("warehouse-package-name=final-pkg")
+            req3 = api.request(scratch)
+            req3.parameter = ",".join(ref_opts + auxo)
+            g3 = pipeline.generate(req3)
+            ref_raw = g3.raw if g3.ok else None
+        if ref_raw is not None:
+            req4 = api.request(scratch)
+            req4.parameter = ",".join(shadow + ref_opts + auxo)
+            g4 = pipeline.generate(req4)
+            counters["repeated_key_pairs"] = 1
+            if not g4.ok:
+                viol.append({"clause": "repeated-option-breaks-generation", "detail": {"options": req4.parameter, **g4.failure()}, "mech": {}})
+            elif g4.raw != ref_raw:
+                names4 = sorted({f.name.split("/")[1] if f.name.count("/") > 1 else f.name for f in g4.response.file})[:6]
+                viol.append({"clause": "earlier-value-of-repeated-option-in-effect",
+                             "detail": {"options": req4.parameter, "second_level_names": names4}, "mech": {}})
     return {"verdict": "violated" if viol else "held", "violations": pipeline.diverse(viol, 40), "evaluations": 2,
             "nontrivial_sigs": [] if viol else [sig], "counters": counters,
             "sample": {"tags": tags, "opts": api.options, "noise": noise, "files": nnames,
